@@ -59,18 +59,26 @@ def model_check(chk, depth, variant="faithful", expect_violation=False, props=PR
     return chk.tlc_must_hold(name, cfg, label="LDAS exhaustive depth %d" % depth, extra_modules={name: mod})
 
 
-def emit(depth, simulate=None, seed=0, givens=("none", "sym", "herm"), classes=CLASSES, pool_idx=None, trans=("N", "T", "H"), x0s=(False, True)):
-    """pool_idx: 1-based indices into POOL for a focused (deeper) enumeration; the indices in the emitted behaviours are mapped back"""
+def emit(depth, simulate=None, seed=0, givens=("none", "sym", "herm"), classes=CLASSES, pool_idx=None, trans=("N", "T", "H"), x0s=(False, True), on_batch=None):
+    """pool_idx: 1-based indices into POOL for a focused (deeper) enumeration; the indices in the emitted behaviours are mapped back.
+    on_batch(behaviours) is called for every 3000 behaviours while TLC is still running"""
     pool = POOL if pool_idx is None else [POOL[i - 1] for i in pool_idx]
     name, mod, cfg = tlc.mc("LDAS", consts(depth, True, x0s=x0s, givens=givens, classes=classes, pool=pool, trans=trans), invariants=["Emit"])
-    r = tlc.run(name, cfg, extra_modules={name: mod}, workers=1, simulate=simulate,
-                depth=depth + 3 if simulate else None, seed=seed, timeout=3000)
-    if pool_idx is not None:
-        for tag, v in r.printed:
-            if tag == "BEH":
-                for stp in v[0]["steps"]:
+
+    def remap(behs):
+        if pool_idx is not None:
+            for b in behs:
+                for stp in b["steps"]:
                     if stp["op"] == "Solve":
                         stp["args"][0] = pool_idx[stp["args"][0] - 1]
+        return behs
+    sink = par.Batcher("BEH", 3000, lambda b: on_batch(remap(b))) if on_batch else None
+    r = tlc.run(name, cfg, extra_modules={name: mod}, workers=1, simulate=simulate,
+                depth=depth + 3 if simulate else None, seed=seed, timeout=3000, sink=sink)
+    if sink is not None:
+        sink.flush()
+    else:
+        remap([v[0] for tag, v in r.printed if tag == "BEH"])
     return r
 
 
@@ -400,14 +408,10 @@ def run(chk, replay_case=None, replay=None):
     width = 6
     for k in range(0, len(plan), width):
         with cf.ThreadPoolExecutor(max_workers=width) as ex:
-            futs = [ex.submit(emit, *args) for args in plan[k:k + width]]
+            futs = [ex.submit(emit, *args, on_batch=lambda b: check_behaviours(chk, b)) for args in plan[k:k + width]]
             for j in cf.as_completed(futs):
                 r = j.result()
                 chk.transitions += r.generated
                 chk.tlc_runs.append({"module": "LDAS", "label": "emit", "generated": r.generated, "distinct": r.distinct,
                                      "wall_s": round(r.wall, 2)})
-                behs = [v[0] for tag, v in r.printed if tag == "BEH"]
-                r.printed = []
-                check_behaviours(chk, behs)
-                del behs, r
             del futs
